@@ -267,6 +267,10 @@ class Report:
                     known_hit.append((c, k[0])); continue
                 viol.append(c)
         os.makedirs(VERIF + '/evidence/replays', exist_ok=True)
+        if not os.environ.get('VERIF_ONLY'):
+            # a full run of this property owns its replay artefacts: drop the ones of earlier runs (e.g. on a different tree)
+            import glob
+            for old_ in glob.glob(f'{VERIF}/evidence/replays/{self.pid}-*.json'): os.remove(old_)
         vlines = []
         for i, c in enumerate(viol):
             path = f"{VERIF}/evidence/replays/{self.pid}-{re.sub(r'[^A-Za-z0-9_.-]+', '_', c['ob'] + '-' + c['role'])[:80]}.json"
